@@ -17,6 +17,12 @@ logger = logging.getLogger('IsoQuant')
 
 
 def merge_file_list(fname, label, chr_ids):
+    # the per-chromosome part of <dir>/<label><suffix> is <dir>/<label>_<chr_id><suffix> (SampleData / GFFPrinter with
+    # the prefix <label>_<chr_id>): the label to extend is the one the base name STARTS with. Its last occurrence in
+    # the path may lie inside the suffix (-p a, t, reads, gene, counts; -p S with the SQANTI-like tables)
+    dir_name, base_name = os.path.split(fname)
+    if base_name.startswith(label):
+        return [os.path.join(dir_name, f"{label}_{chr_id}" + base_name[len(label):]) for chr_id in chr_ids]
     return [rreplace(fname, label, f"{label}_{chr_id}") for chr_id in chr_ids]
 
 
